@@ -6,7 +6,7 @@ import Starcal.FHour
     exact rational arithmetic (IEEE rounding is NOT modelled) — and C18's round trips restated about the
     translated code. -/
 namespace Starcal.SrcTie
-open Starcal Starcal.Gen.Src Starcal.FHour
+open Starcal Starcal.Gen.Src Starcal.FHour Starcal.RatCeil
 
 def toModel (x : GoSem.HMS) : HMS := ⟨x.Hour, x.Minute, x.Second⟩
 def ofModel (x : HMS) : GoSem.HMS := ⟨x.hour, x.minute, x.second⟩
